@@ -311,6 +311,9 @@ func genParserTrace(r *RNG, tier string, o ptOpts) *Trace {
 			if r.Chance(pg.flagsNTL) {
 				op.F = lz.NoTrailingLiterals
 			}
+			if pg.wNil > 0 && r.Intn(pg.wParse+pg.wNil) < pg.wNil {
+				op.K, op.Re = "WParseNil", false
+			}
 			t.Ops = append(t.Ops, op)
 			if r.Chance(0.03) {
 				wr := Op{K: "WReset", Plan: genRPlan(r, n, po)}
@@ -474,8 +477,8 @@ func init() {
 			pg.wReset = 1
 			pg.wResetData = 0
 			pg.wReadAt = 0
-			t := genParserTrace(r, tier, ptOpts{types: parserTypes, pg: pg})
-			if r.Chance(0.3) {
+			t := genParserTrace(r, tier, ptOpts{types: parserTypes, pg: pg, wrapShare: 0.2})
+			if r.Chance(0.3) && t.P.Target != "wrap" {
 				// a drain loop of Parse(nil) at the end
 				for i := 0; i < 8; i++ {
 					t.Ops = append(t.Ops, Op{K: "ParseNil"})
